@@ -149,7 +149,7 @@ def witness_of(r, rep=None):
 
 def run_pipeline(chk, items, rng, seed, nwalks=8, maxlen=24, chunk_mode='some', chunk_limit=4, sanitize=False,
                  post_terminal=0, extra_inputs=None, share_inputs_by='src', classify=None, tlc_parallel=4,
-                 keep_records=False):
+                 keep_records=False, cover=0, cover_budget=200000):
     """items: (name, src, args).  Files violations on chk; returns dict with progs, records, cases, verdicts, stats."""
     t0 = time.time()
     progs = runner.compile_programs(items)
@@ -162,6 +162,21 @@ def run_pipeline(chk, items, rng, seed, nwalks=8, maxlen=24, chunk_mode='some', 
         # inputs: one set per distinct source (so that option sets of one program see the same inputs)
         inputs = {}
         crashes = []
+        cov = {}
+        out['cover_stats'] = {'items': 0, 'states': 0, 'transitions': 0, 'inputs': 0}
+        if cover:
+            # specification-guided inputs: TLC (Cover.tla) finds the shortest input reaching every distinguishable step
+            import mc
+            firsts, seen_src = [], set()
+            for p in accepted:
+                if p.bin and p.src not in seen_src:
+                    seen_src.add(p.src)
+                    firsts.append(p)
+            cov, cst = mc.cover_inputs(firsts, k=cover, budget=cover_budget, rng=random.Random(seed * 31 + 7))
+            for e in cst['errors']:
+                chk.machinery_error('TLC(Cover): ' + str(e)[:1500])
+            out['cover_stats'] = {'items': cst['items'], 'states': cst['states'], 'transitions': cst['transitions'],
+                                  'inputs': sum(len(v) for v in cov.values())}
         for p in accepted:
             if not p.bin or p.src in inputs:
                 continue
@@ -169,6 +184,7 @@ def run_pipeline(chk, items, rng, seed, nwalks=8, maxlen=24, chunk_mode='some', 
             ins = runner.walk_inputs(p, nwalks, maxlen, rng, crashes=cr)
             if extra_inputs:
                 ins = ins + list(extra_inputs(p))
+            ins = ins + cov.get(p.pid, [])
             # dedupe, keep order
             seen = set()
             inputs[p.src] = [x for x in ins if not (x in seen or seen.add(x))]
@@ -179,6 +195,8 @@ def run_pipeline(chk, items, rng, seed, nwalks=8, maxlen=24, chunk_mode='some', 
         bad = [r for r in recs if r['rec']['status'] != 'ok']
         cases, skipped = to_cases(good)
         verd, stats = runner.validate_traces(cases, shards=tlc_parallel, workers=4)
+        stats['states'] += out['cover_stats']['states']
+        stats['transitions'] += out['cover_stats']['transitions']
         out.update(records=recs if keep_records else None, cases=cases, verdicts=verd, stats=stats, inputs=inputs,
                    unbuildable=unbuildable, bad=bad, crashes=crashes)
         counts = {'ACCEPT': 0, 'REJECT': 0, 'SKIP': 0, 'NONE': 0}
@@ -215,6 +233,11 @@ def run_pipeline(chk, items, rng, seed, nwalks=8, maxlen=24, chunk_mode='some', 
     finally:
         if not keep_records:
             shutil.rmtree(root, ignore_errors=True)
+
+
+def cover_cov(out):
+    cs = out.get('cover_stats') or {}
+    return {'spec_guided_inputs': cs.get('inputs', 0), 'step_behaviours_reached_by_spec_guided_inputs': cs.get('items', 0)}
 
 
 def sample_cases(out, k=3):
